@@ -67,8 +67,7 @@ SubstLaws == (Complete /\ f \in {"SUBSTITUTE", "SUBSTITUTEK"} /\ E.k = "val") =>
   LET old == Olds[p1]
       occurs == \E i \in 1..Len(s) : StartsWith(SubSeq(s, i, Len(s)), old)
   IN /\ (~occurs => E.v = Txt(s))
-     /\ (f = "SUBSTITUTE" /\ News[p2] # old => ~(\E i \in 1..Len(E.v.s) : StartsWith(SubSeq(E.v.s, i, Len(E.v.s)), old))
-                                               \/ \E i \in 1..Len(News[p2]) : TRUE)
+     \* (removing every occurrence may leave a new one behind: "aaBB" without "aB" is "aB" - no law about what remains)
      /\ (f = "SUBSTITUTE" /\ News[p2] = <<>> => Len(E.v.s) <= Len(s))
 ExportInv == Complete => CSVWrite("%1$s", <<ToJson([f |-> FName, args |-> Args])>>, IOEnv.CASE_FILE)
 =============================================================================
